@@ -16,7 +16,9 @@
 //	            time.Now())
 //
 // A second stream (`split` / `norm` lines) calls the real keeper.SplitNodeRewards and
-// types.NormalizeRewardDelegators on generated inputs; the Lean driver compares them with the model.
+// types.NormalizeRewardDelegators on generated inputs and prints the normalised slice / the callback
+// invocations IN ORDER; the Lean driver compares them with the model of the code as it is now
+// (sorted by address), so a code base that pays in map order is a DIFF on these lines already.
 // Trace consumed by lean/Driver/C12.lean.
 package main
 
@@ -26,7 +28,6 @@ import (
 	"flag"
 	"fmt"
 	"os"
-	"sort"
 	"strings"
 	"sync"
 	"time"
@@ -242,10 +243,9 @@ func pureStream(t *gen.Trace, r *gen.R, n int) {
 			t.Line("norm/invalid", false, "norm %s => invalid", dstr)
 		} else {
 			var ps []string
-			for _, p := range norm {
+			for _, p := range norm { // in the order returned (the order SplitNodeRewards pays in)
 				ps = append(ps, fmt.Sprintf("%s:%d", p.Address.String(), p.RewardShare))
 			}
-			sort.Strings(ps)
 			res := "-"
 			if len(ps) > 0 {
 				res = strings.Join(ps, ",")
@@ -254,28 +254,17 @@ func pureStream(t *gen.Trace, r *gen.R, n int) {
 		}
 		rewards := []int64{0, -5, 1, 7, 99, 100, 101, 12345, 1000000007, 999999999999}[r.Intn(10)]
 		primary := addrs[r.Intn(len(addrs))]
-		pay := map[string]sdk.BigInt{}
-		var order []string
+		var calls []string // the callback invocations in order
 		err := nodesKeeper.SplitNodeRewards(logger, sdk.NewInt(rewards), primary, del, func(a sdk.Address, c sdk.BigInt) {
-			k := a.String()
-			if cur, ok := pay[k]; ok {
-				pay[k] = cur.Add(c)
-			} else {
-				pay[k] = c
-			}
-			order = append(order, k[:6])
+			calls = append(calls, fmt.Sprintf("%s:%s", a.String(), c.String()))
 		})
 		if err != nil {
 			t.Line("split/err", false, "split %d %s %s => error", rewards, primary.String(), dstr)
 			continue
 		}
-		var ps []string
-		for _, k := range chain.SortedKeys(pay) {
-			ps = append(ps, fmt.Sprintf("%s:%s", k, pay[k].String()))
-		}
 		res := "-"
-		if len(ps) > 0 {
-			res = strings.Join(ps, ",")
+		if len(calls) > 0 {
+			res = strings.Join(calls, ",")
 		}
 		t.Line("split/ok", len(del) > 0, "split %d %s %s => %s", rewards, primary.String(), dstr, res)
 	}
